@@ -107,6 +107,9 @@ def big_samples(rep):
             for n in (1, 2):
                 hs.append({"base": 0, "cfg": muxgen.DEFAULT_CFG, "ops": [{"add": muxgen.tc(kind)}] + [{"w": [1, 1024, 0, True, {"fill": 3, "len": ln, "step": 0}]}] * n})
             hs.append({"base": 0, "cfg": muxgen.DEFAULT_CFG, "ops": [{"add": muxgen.tc(kind)}, {"w": [1, 1024, 0, True, {"fill": 3, "len": ln, "step": 0}]}, {"w": [1, 1024, 0, True, "aa"]}]})
+            # the big sample LAST, after a small / an empty one (per-sample size table; a scan for the maximum must include its last entry)
+            hs.append({"base": 0, "cfg": muxgen.DEFAULT_CFG, "ops": [{"add": muxgen.tc(kind)}, {"w": [1, 1024, 0, True, "aabb"]}, {"w": [1, 1024, 0, True, {"fill": 3, "len": ln, "step": 0}]}]})
+            hs.append({"base": 0, "cfg": muxgen.DEFAULT_CFG, "ops": [{"add": muxgen.tc(kind)}, {"w": [1, 1024, 0, True, ""]}, {"w": [1, 1024, 0, False, "cc"]}, {"w": [1, 1024, 0, True, {"fill": 3, "len": ln, "step": 0}]}]})
     fails = []
     for profile in ("debug", "release"):
         outs = common.harness_run("run", profile, [json.dumps(muxgen.to_harness(h, want_bytes=False, readback=False)) for h in hs], shards=4, timeout=900)
@@ -117,7 +120,7 @@ def big_samples(rep):
                 o = {"dead": raw}
             f = oracle_c17({"impl": o, "h": h}) if "dead" not in o else {"what": "worker died on a 16 MiB sample history: %s" % str(raw)[:60]}
             if f:
-                fails.append(dict(f, kind="input", profile=profile, history={"cfg": h["cfg"], "ops": [h["ops"][0], "... %d samples of %d bytes" % (len(h["ops"]) - 1, h["ops"][1]["w"][4]["len"])]}))
+                fails.append(dict(f, kind="input", profile=profile, history={"cfg": h["cfg"], "ops": [h["ops"][0], "... %d samples, the large one of %d bytes" % (len(h["ops"]) - 1, max(o["w"][4]["len"] for o in h["ops"][1:] if isinstance(o["w"][4], dict)))]}))
     return fails, len(hs)
 
 
